@@ -136,6 +136,37 @@ DepCases(n) ==
     /\ PrintT(<<"DV", ToJson([deps |-> ds, expect |-> ExpectedDeps(ds)])>>)
 
 -----------------------------------------------------------------------------
+(* C15 / C13: which buildpacks `cargo libcnb package` selects (libcnb-cargo/src/package/      *)
+(* command.rs).  The directory the command runs in decides: a buildpack's own directory      *)
+(* selects that buildpack, the workspace root selects every buildpack, anything else selects *)
+(* nothing (an error).  Buildpack directories may be nested in one another and the workspace *)
+(* root may itself be a buildpack.  Written = the selection and everything it depends on;    *)
+(* printed on stdout = the selection only.                                                   *)
+
+CmdDirs == {"", "d1", "d2", "d1/in"}            \* "" = the workspace root
+CmdCwds == CmdDirs \cup {"docs"}                \* docs: a directory that is no buildpack
+Placements == {pl \in [Nodes -> CmdDirs] : \A a, b \in Nodes : a # b => pl[a] # pl[b]}
+
+\* implementation-shaped: first node whose path equals cwd, else all nodes when cwd is the root
+ImplSelected(pl, cwd) ==
+  IF \E n \in Nodes : pl[n] = cwd THEN {CHOOSE n \in Nodes : pl[n] = cwd}
+  ELSE IF cwd = "" THEN Nodes ELSE {}
+\* declarative
+Selected(pl, cwd) == LET here == {n \in Nodes : pl[n] = cwd} IN
+                     IF here # {} THEN here ELSE IF cwd = "" THEN Nodes ELSE {}
+IsPrefixDir(a, b) == a = "" \/ a = b \/ (a = "d1" /\ b = "d1/in")
+
+CommandLaw ==
+  \A gr \in {x \in Graphs : Acyclic(x)}, pl \in Placements, cwd \in CmdCwds :
+    LET sel == Selected(pl, cwd)  written == Reach(gr, sel) IN
+    /\ ImplSelected(pl, cwd) = sel
+    /\ Cardinality(sel) <= 1 \/ (cwd = "" /\ sel = Nodes)
+    \* a directory selects the buildpack that lives exactly there, never one of an enclosing directory
+    /\ \A n \in sel : cwd = "" \/ pl[n] = cwd
+    /\ sel \subseteq written
+    /\ (EmitTR => PrintT(<<"CV", ToJson([deps |-> gr, place |-> pl, cwd |-> cwd, selected |-> sel, written |-> written])>>))
+
+-----------------------------------------------------------------------------
 (* Direction B: orders / normalised paths recorded from the real code, validated here *)
 
 TraceRec == ndJsonDeserialize(IOEnv.TRACE)
@@ -159,6 +190,7 @@ ASSUME
     [] Mode = "graph-cases" -> GraphCases
     [] Mode = "path-q" -> PathLaw(4) /\ PathCases(4) /\ DepCases(2)
     [] Mode = "path-t" -> PathLaw(7) /\ PathCases(6) /\ DepCases(4)
+    [] Mode = "command" -> CommandLaw
     [] Mode = "trace" -> TraceCheck
     [] OTHER -> TRUE
 =============================================================================
